@@ -181,10 +181,12 @@ func (r *Report) finish(verifDir string, seed int, start time.Time, w *World, cm
 		switch o.Status {
 		case Discharged:
 			ndis++
-		case Violated, Undecided:
-			if o.Status == Undecided {
-				nundec++
-			}
+		case Undecided:
+			// the analysis met a shape it cannot decide: not a violation claim, but not a pass either (exit 2)
+			nundec++
+			fmt.Printf("%s: [%s] %s in %s: %s\n    %s\n", o.At, o.Rule, o.Status, o.Function, o.Construct, o.Detail)
+			fmt.Printf("UNDECIDED property=%s %s\n", r.Prop, o.Key())
+		case Violated:
 			nviol++
 			p := filepath.Join(outDir, fmt.Sprintf("%d.json", nviol))
 			b, _ := json.MarshalIndent(map[string]any{"property": r.Prop, "obligation": o}, "", " ")
@@ -271,6 +273,10 @@ func (r *Report) finish(verifDir string, seed int, start time.Time, w *World, cm
 		r.Prop, r.Tier, len(r.Obls), ndis, nknown, nviol, nundec, strings.Join(r.floors, "; "))
 	if nviol > 0 {
 		return 1
+	}
+	if nundec > 0 {
+		fmt.Fprintf(os.Stderr, "dfscheck: %d obligation(s) of %s could not be decided on this tree (no violation is claimed)\n", nundec, r.Prop)
+		return 2
 	}
 	return 0
 }
